@@ -317,8 +317,11 @@ def amre_start_or_wait(run, F):
     f = fn(F, 'unifex::_amre::async_manual_reset_event::start_or_wait')
     G = Graph(f)
     cas = [n for n, e in G.ev.items() if e.get('k') == 'call' and e['callee'].get('name') in ('compare_exchange_weak', 'compare_exchange_strong')]
-    tests = [t for t, e in G.ev.items() if e.get('k') == 'term' and e.get('cond') is not None and any('signalledState' in p or p == '#null' for p in expr_paths(e['cond'])) and e['cond'].get('op') == 'bin']
-    tests = [t for t in tests if any(last_field(p) in ('top', 'oldState', 'state') or p == 'top' for p in expr_paths(G.ev[t]['cond']))]
+    # the snapshot of the state word is the local passed as `expected` to the CAS (its name is free); the "already
+    # signalled?" test is the ==/!= comparison of that snapshot
+    snaps = {G.ev[c]['args'][0].get('p') for c in cas if G.ev[c].get('args') and isinstance(G.ev[c]['args'][0], dict) and G.ev[c]['args'][0].get('op') == 'path'}
+    tests = [t for t, e in G.ev.items() if e.get('k') == 'term' and e.get('cond') is not None and e['cond'].get('op') == 'bin' and e['cond'].get('o') in ('==', '!=')
+             and snaps & set(expr_paths(e['cond']))]
     if not cas or not tests: raise Broken('start_or_wait: CAS loop or signalled test not found')
     run.inst(site(f), 'signalled test inside the CAS retry loop', key='amre-loop')
     for c in cas:
